@@ -289,12 +289,12 @@ func drawCfg(c *kernel.Ctx, opt Options) RunCfg {
 	if UtxoReady() && t.Bool(share[0], share[1]) {
 		rc.UTXO = true
 		rc.Wallets = t.Range(2, 3)
-		w.Fund, w.Spend, w.SpendAcc, w.KIConflict, w.KIDup = t.Range(1, 3), t.Range(3, 8), t.Range(0, 3), t.Range(1, 4), t.Int(2)
+		w.Fund, w.Spend, w.SpendAcc, w.KIConflict, w.KIDup = t.Range(1, 3), t.Range(3, 8), t.Range(0, 3), t.Range(2, 5), t.Int(2)
 		w.SpendAll, w.Respent = t.Range(0, 3), t.Range(0, 2)
 		// the funder must be able to pay hidden amounts
 		rc.World.Balances[0] = new(big.Int).Mul(big.NewInt(1e18), big.NewInt(1000000))
-		if t.Bool(1, 3) {
-			mc.UTXOSize = []int{1, 2, 3}[t.Int(3)]
+		if t.Bool(1, 2) {
+			mc.UTXOSize = []int{1, 2, 3, 4}[t.Int(4)]
 		}
 	}
 	rc.ExtRate = t.Range(0, 5)
